@@ -6,7 +6,7 @@ VERIF = os.path.dirname(os.path.dirname(os.path.abspath(__file__)))
 
 CLAIMED = {
     "C07": dict(
-        technique="TLA+ PlusCal transcription of the RFC slice procedure model-checked by TLC (termination, closed form, clamping lemma); every Done state replayed into find(); text-level records trace-validated by TLC",
+        technique="TLA+ PlusCal transcription of the RFC slice procedure model-checked by TLC (termination, closed form, clamping lemma) and, for unbounded integers, an inductive invariant of the same procedure discharged by Apalache (SliceInd.tla); every Done state replayed into find(); text-level records trace-validated by TLC",
         text="TLC exhaustively explores the RFC's normalise/bounds/loop procedure (Slice.tla) for len 0..6(9) x all (start,end,step) in {omitted} u -8..8(-11..11) u {+-(2^53-1) via the clamping lemma}; each terminal state is replayed into the implementation (spec->code) and index/slice records of the implementation (selector lists, blank space, nested/descendant positions, objects, scalars, 2^53-1 literals) are validated against Eval.tla by TLC (code->spec). Exhaustive within the stated grid; beyond it only the clamping lemma's argument.",
         note="Trusted: TLC/SANY, the transcription of RFC 9535 2.3.3/2.3.4.2.2, the Python<->spec codecs; 32-bit TLC integers (2^30-1 stands for 2^53-1 by lemma T4c).",
         design_ref="4 (C07), 3.6",
